@@ -61,7 +61,9 @@ func main() {
 	}
 	switch os.Args[1] {
 	case "run":
-		os.Exit(cmdRun(os.Args[2:]))
+		code := cmdRun(os.Args[2:])
+		dictHelp.cleanup()
+		os.Exit(code)
 	case "termtest":
 		os.Exit(cmdTermTest())
 	default:
